@@ -248,7 +248,9 @@ def project(r):
         e = tr[i]
         k = e["ev"]
         inst = e.get("inst", -1)
-        nxt = tr[i + 1]["ev"] if i + 1 < n else None
+        # the effect of a request is recorded at the same virtual instant, right after it (delayed markers
+        # of an earlier EndTxn may be the next event of the trace, later in time)
+        nxt = tr[i + 1]["ev"] if i + 1 < n and (k != "request" or tr[i + 1].get("t") == e.get("t")) else None
         if pending_kill is not None and k not in EFFECTS and not (k == "request" and inst == pending_kill[0]
                                                                    and not pending_kill[1]):
             evs.append(f"AKill {pending_kill[0]}")
@@ -749,6 +751,12 @@ def run(ck: Check):
                                   f"model rejects event #{idx} `{evs[idx] if idx < len(evs) else None}` after "
                                   f"{evs[max(0, idx - 12):idx]}; faults={sc.get('faults')} kills={sc.get('kills')} "
                                   f"moves={sc.get('moves')}")
+                    # the real run is the counterexample: keep it replayable
+                    ck.violation(f"the model rejects the trace of the real producer at event #{idx} "
+                                 f"`{evs[idx] if idx < len(evs) else None}` (scenario {sc['id']})",
+                                 {"scenario": sc, "what": "model rejects the real trace", "event_index": idx,
+                                  "events_before": evs[max(0, idx - 30):idx + 1]},
+                                 signature="model-rejects-real-trace")
                 continue
             glog, coord, views, ended, cstates, obinfo = v[1]
             diffs = []
